@@ -240,3 +240,138 @@ class Interp:
         if isinstance(st, (ast.Pass,)):
             return
         raise Unsupported(f"statement `{A.src(st)[:60]}`")
+
+
+# ---------------------------------------------------------------------- the same on symbolic terms (xsa.sym)
+
+
+class TermShapes:
+    """Shapes of xsa.sym terms.  `env` maps leaf terms (self.U, a parameter, ...) to shapes; `bounds` maps integer-valued
+    terms used as slice bounds / sizes to the dimension symbol they stand for.  Alternatives must agree."""
+
+    def __init__(self, env: Dict[tuple, Shape], bounds: Dict[tuple, str] = None):
+        self.env = dict(env)
+        self.bounds = dict(bounds or {})
+
+    def of(self, t) -> Shape:
+        from . import sym as S
+        if t in self.env:
+            return self.env[t]
+        k = t[0] if isinstance(t, tuple) and t else None
+        s = S.show(t)[:80]
+        if k == "alt":
+            shapes = {self.of(a) for a in t[1]}
+            if len(shapes) != 1:
+                raise ShapeError(f"alternatives of `{s}` have different shapes {sorted(map(str, shapes))}")
+            return shapes.pop()
+        if k == "const":
+            return ()
+        if k == "attr":
+            if t[2] == "T":
+                return tuple(reversed(self.of(t[1])))
+            if t[2] in ("real", "imag"):
+                return self.of(t[1])
+            raise Unsupported(f"attribute `{s}`")
+        if k == "uop":
+            return self.of(t[2])
+        if k in ("op", "aug"):
+            if t[1] == "@":
+                return matmul(self.of(t[2]), self.of(t[3]), s)
+            return broadcast(self.of(t[2]), self.of(t[3]), s)
+        if k == "cmp":
+            return broadcast(self.of(t[2]), self.of(t[3]), s)
+        if k == "sub":
+            return self.index(self.of(t[1]), t[2], s)
+        if k == "item":
+            raise Unsupported(f"tuple component `{s}`")
+        if k == "call":
+            f = t[1]
+            name = None
+            if f[:1] == ("attr",) and f[1] in (("glob", "np"), ("glob", "numpy")):
+                name = "np." + f[2]
+            elif f[:1] == ("glob",):
+                name = f[1]
+            a = t[2]
+            if name == "np.dot":
+                x, y = self.of(a[0]), self.of(a[1])
+                if len(x) == 0 or len(y) == 0:
+                    return broadcast(x, y, s)
+                return matmul(x, y, s)
+            if name == "np.outer":
+                x, y = self.of(a[0]), self.of(a[1])
+                if len(x) != 1 or len(y) != 1:
+                    raise ShapeError(f"np.outer of shapes {x}, {y} in `{s}`")
+                return (x[0], y[0])
+            if name == "np.diag":
+                x = self.of(a[0])
+                if len(x) == 1:
+                    return (x[0], x[0])
+                if len(x) == 2:
+                    if x[0] != x[1]:
+                        raise ShapeError(f"np.diag of a non-square {x} in `{s}`")
+                    return (x[0],)
+            if name in ("np.zeros_like", "np.ones_like", "np.abs", "np.sqrt", "np.array", "np.asarray", "np.copy", "np.atleast_1d", "np.squeeze"):
+                return self.of(a[0])
+            if name in ("np.zeros", "np.ones", "np.empty") and a:
+                elts = a[0][1] if a[0][:1] == ("tuple",) else (a[0],)
+                return tuple(self.dim_of(x) for x in elts)
+            if name in ("len", "np.sum", "float", "int") or (f[:1] == ("attr",) and f[1] == ("attr", ("glob", "np"), "linalg") and f[2] == "norm"):
+                return ()
+            if f[:1] == ("attr",) and f[2] == "copy":
+                return self.of(f[1])
+            raise Unsupported(f"call `{s}`")
+        raise Unsupported(f"expression `{s}`")
+
+    def dim_of(self, t):
+        from . import sym as S
+        if t in self.bounds:
+            return self.bounds[t]
+        if t[:1] == ("alt",):
+            ds = {self.dim_of(a) for a in t[1]}
+            if len(ds) == 1:
+                return ds.pop()
+            raise ShapeError(f"size `{S.show(t)}` stands for different lengths {sorted(map(str, ds))}")
+        if S.is_call_of(t, ("glob", "len")) and t[2]:
+            sh = self.of(t[2][0])
+            if not sh:
+                raise ShapeError(f"len() of a scalar `{S.show(t)}`")
+            return sh[0]
+        if t[:1] == ("const",):
+            try:
+                return int(t[1])
+            except ValueError:
+                pass
+        raise Unsupported(f"dimension `{S.show(t)}`")
+
+    def index(self, base: Shape, sl, what: str) -> Shape:
+        from . import sym as S
+        items = sl[1] if sl[:1] == ("tuple",) else (sl,)
+        if len(items) > len(base):
+            raise ShapeError(f"too many indices for shape {base} in `{what}`")
+        out = []
+        for i, it in enumerate(items):
+            dim = base[i]
+            if it[:1] == ("slice",):
+                lo, hi, st = it[1], it[2], it[3]
+                if lo is None and hi is None:
+                    out.append(dim)
+                elif lo is None and hi is not None:
+                    out.append(self.dim_of(hi))
+                else:
+                    raise Unsupported(f"slice `{S.show(it)}`")
+            elif it[:1] == ("const",):
+                continue
+            elif it[:1] in (("elem",), ("index",)):
+                continue    # loop index
+            else:
+                ish = self.of(it)
+                if ish == ():
+                    continue
+                if len(ish) == 1:
+                    if ish[0] != dim:
+                        raise ShapeError(f"mask/index of length {ish[0]} applied to an axis of length {dim} in `{what}`")
+                    out.append(f"sel({S.show(it)[:40]})")
+                else:
+                    raise Unsupported(f"index `{S.show(it)}`")
+        out += list(base[len(items):])
+        return tuple(out)
